@@ -21,7 +21,8 @@ UFS = ["add", "subtract", "multiply", "less", "maximum", "floor_divide"]
 
 def _lv(tier):
     if tier == "quick":
-        vs = [list(v) for n in (1, 2) for v in itertools.product(range(1, 4), repeat=n)] + [[5], [4, 5], [5, 3]]
+        vs = [list(v) for n in (1, 2) for v in itertools.product(range(1, 4), repeat=n)] + [[5], [4, 5], [5, 3]] + \
+             [[2, 2, 4], [3, 1, 3, 5], [1, 1, 1], [2, 3, 2]]        # three / four rows, several of them equally long
     else:
         vs = [list(v) for n in (1, 2, 3) for v in itertools.product(range(1, 4), repeat=n)]
         vs += [list(v) for n in (1, 2) for v in itertools.product(range(1, 6), repeat=n) if max(v) > 3]
